@@ -5,9 +5,10 @@
 import Wbxml.Model.EncXml
 import Wbxml.Spec.XmlText
 import Wbxml.Lemmas.XmlPrint
+import Wbxml.Lemmas.XmlNs
 import Wbxml.Lemmas.Ident
 namespace Wbxml.Props.C05
-open Wbxml Wbxml.Model Wbxml.Spec Wbxml.Lemmas.XmlPrint
+open Wbxml Wbxml.Model Wbxml.Spec Wbxml.Lemmas.XmlPrint Wbxml.Lemmas.XmlNs
 
 /-- What one byte becomes in `xml_encode_text_entities`. -/
 def esc1 (canonical : Bool) (ch : UInt8) : Bytes :=
@@ -363,7 +364,7 @@ theorem no_indent_in_text_only_elements (c : XCfg) (parent : Parent) (f : Nat) (
     (attrs : List Attr) (kids : List Node) (st st' : XSt) (hk : kids ≠ []) (ht : allText kids = true)
     (h : xmlNode { c with gen := 1 } parent (f + 1) (.elt name attrs kids) st = .ok st') :
     ∃ texts r,
-      xmlNodes { c with gen := 0 } (.elt name) f kids { st with out := [], curTag := tagOf name } = .ok r ∧
+      xmlNodes { c with gen := 0 } (childScope parent name) f kids { st with out := [], curTag := tagOf name } = .ok r ∧
       r.out = texts ∧
       st'.out = st.out ++ spaces (st.indent.toNat * c.delta.toNat) ++ [60] ++ name.xmlName ++
         nsDecl c parent name ++ (if c.lang.attrs.isSome then attrs.flatMap (attrBytes false) else []) ++
@@ -376,7 +377,7 @@ theorem no_indent_in_text_only_elements (c : XCfg) (parent : Parent) (f : Nat) (
   · cases h
   · rename_i r1 h1
     simp only [Except.ok.injEq] at h
-    obtain ⟨x, hx, hp⟩ := xmlNodes_texts c (.elt name) kids ht f _ r1 h1
+    obtain ⟨x, hx, hp⟩ := xmlNodes_texts c (childScope parent name) kids ht f _ r1 h1
     refine ⟨x, { r1 with out := x }, ?_, rfl, ?_⟩
     · have := hp []
       simp only [List.nil_append] at this
@@ -392,6 +393,218 @@ theorem no_indent_in_text_only_elements (c : XCfg) (parent : Parent) (f : Nat) (
 theorem text_piece_shape (c : XCfg) (s : Bytes) (st r : XSt) (h : xmlText c s st = .ok r) :
     ∃ x, r.out = st.out ++ x ∧ ∀ o, xmlText c s { st with out := o } = .ok { r with out := o ++ x } :=
   xmlText_piece c s st r h
+
+/-! ## Namespace declarations (after fix 3c27455)
+
+`xml_encode_tag` declares `xmlns` for a token element whose code page differs from the code page of
+the nearest ancestor that is a token element (walking up through literal elements and CDATA nodes),
+or that has no such ancestor. Before the fix only a *direct* token parent was compared, so a token
+element below a literal element got no declaration and was read in the wrong (or no) namespace;
+`namespace_in_scope_matches_page` below was false then (`ns_former_witness_fixed`).
+
+Paths (`List Nat`, child indices) lead through elements and CDATA nodes, not into embedded documents:
+those are printed by `xmlNode` as documents of their own — their own language, root scope `.none` —
+so every statement below applies to them separately. -/
+
+/-- **(a) The scope is the nearest token-element ancestor.** `scopeAt` walks the tree with an explicit
+    scope (`Option Nat`: the page of the nearest token-element ancestor, `none` when there is none).
+    Whenever `xmlNode` prints `n` under a scope `p` (for all configurations, fuel, states) and `path`
+    leads to the node `m`, then `m` is printed by a call `xmlNode c q g m a` whose scope `q` is a
+    proper scope value standing for exactly the page `scopeAt` computes, and what that call has
+    written when it returns is an initial part of the whole output. -/
+theorem ns_scope_is_nearest_token_ancestor (c : XCfg) (p : Parent) (hp : isScope p = true) (f : Nat) (n : Node)
+    (st st' : XSt) (h : xmlNode c p f n st = .ok st') (path : List Nat) (s : Option Nat) (m : Node)
+    (hpath : scopeAt (scopePage p) n path = some (s, m)) :
+    ∃ q, isScope q = true ∧ scopePage q = s ∧
+      ∃ g a b post, xmlNode c q g m a = .ok b ∧ st'.out = b.out ++ post := by
+  rw [scopeAt_pathTo] at hpath
+  cases hpt : pathTo n path with
+  | none => rw [hpt] at hpath; cases hpath
+  | some x =>
+    rw [hpt] at hpath
+    simp only [Option.map_some, Option.some.injEq, Prod.mk.injEq] at hpath
+    obtain ⟨hs, hm⟩ := hpath
+    refine ⟨x.1.foldl childScope p, foldl_childScope_isScope _ _ hp, ?_, ?_⟩
+    · rw [scopePage_foldl]; exact hs
+    · rw [← hm]; exact xmlNode_sub c path p f n st st' x.1 x.2 h hpt
+
+/-- … for an element: its start tag, written by `xmlTag` under that scope, is in the output. -/
+theorem ns_scope_start_tag (c : XCfg) (p : Parent) (hp : isScope p = true) (f : Nat) (n : Node)
+    (st st' : XSt) (h : xmlNode c p f n st = .ok st') (path : List Nat) (s : Option Nat)
+    (name : Name) (attrs : List Attr) (kids : List Node)
+    (hpath : scopeAt (scopePage p) n path = some (s, .elt name attrs kids)) :
+    ∃ q a post, isScope q = true ∧ scopePage q = s ∧ st'.out = (xmlTag c q name a).out ++ post := by
+  obtain ⟨q, hq, hs, g, a, b, post, hb, ho⟩ := ns_scope_is_nearest_token_ancestor c p hp f n st st' h path s _ hpath
+  obtain ⟨x, hx⟩ := xmlNode_elt_tag c q g name attrs kids a b hb
+  exact ⟨q, a, x ++ post, hq, hs, by rw [ho, hx, List.append_assoc]⟩
+
+/-- The explicit scope along a chain of ancestors `names` (outermost first; CDATA nodes do not count):
+    the page of the last token name among them, and the scope from above if there is none — and the
+    model's `childScope` computes exactly that token element. -/
+theorem ns_scope_is_last_token (names : List Name) (s : Option Nat) (p : Parent) :
+    names.foldl childPage s = (match lastToken names with | some r => some r.page | none => s) ∧
+    names.foldl childScope p = (match lastToken names with | some r => .elt (.token r) | none => p) :=
+  ⟨foldl_childPage_last names s, foldl_childScope_last names p⟩
+
+/-- After any chain of literal elements (and CDATA nodes) the scope is still the one from above. -/
+theorem ns_scope_unchanged_by_literals (names : List Name) (p : Parent) (h : ∀ n ∈ names, ∃ s, n = .literal s) :
+    names.foldl childScope p = p := by
+  induction names generalizing p with
+  | nil => rfl
+  | cons n rest ih =>
+    obtain ⟨s, rfl⟩ := h n (List.mem_cons_self ..)
+    exact ih p (fun n hn => h n (List.mem_cons_of_mem _ hn))
+
+/-- What `xmlTag` writes, in every case: indentation, `<name`, and the declaration of `declaredNs`. -/
+theorem xmlns_declared_bytes (c : XCfg) (p : Parent) (name : Name) (st : XSt) :
+    (xmlTag c p name st).out =
+      st.out ++ (if c.gen == 1 then spaces (st.indent.toNat * c.delta.toNat) else []) ++ [60] ++ name.xmlName ++
+        declBytes (declaredNs c p name) := by
+  rw [xmlTag_out, nsDecl_eq]
+
+/-- **(b) `xmlns` is declared exactly when the page differs from the scope's.** In a language with a
+    namespace table, the start tag of a token element `r` printed under scope `p` is: indentation,
+    `<name`, and ` xmlns="<namespace of r.page>"` exactly when `p` is `.none` or a token element of
+    another page (`scopeDiffers`, spelled out in the second part) and the table has a row for the
+    page — nothing else. -/
+theorem xmlns_declared_iff_page_differs (c : XCfg) (ns : List NsRow) (hns : c.lang.ns = some ns) (p : Parent)
+    (r : TagRow) (st : XSt) :
+    (xmlTag c p (.token r) st).out =
+      st.out ++ (if c.gen == 1 then spaces (st.indent.toNat * c.delta.toNat) else []) ++ [60] ++ r.name ++
+        (if scopeDiffers p r.page then
+           (match nsOfPageX ns r.page with
+            | some n => b!" xmlns=\"" ++ n ++ [34]
+            | none => [])
+         else []) ∧
+    (scopeDiffers p r.page = true ↔ (p = .none ∨ ∃ pr, p = .elt (.token pr) ∧ pr.page ≠ r.page)) := by
+  refine ⟨?_, scopeDiffers_iff p r.page⟩
+  rw [xmlns_declared_bytes]
+  simp only [declaredNs, hns, Name.xmlName]
+  cases scopeDiffers p r.page with
+  | false => rfl
+  | true => cases nsOfPageX ns r.page <;> rfl
+
+/-- Nothing is declared for a literal name … -/
+theorem xmlns_not_declared_for_literal (c : XCfg) (p : Parent) (s : Bytes) (st : XSt) :
+    (xmlTag c p (.literal s) st).out =
+      st.out ++ (if c.gen == 1 then spaces (st.indent.toNat * c.delta.toNat) else []) ++ [60] ++ s := by
+  rw [xmlns_declared_bytes]
+  cases hns : c.lang.ns <;> simp [declaredNs, hns, declBytes, Name.xmlName]
+
+/-- … nor in a language without namespace table. -/
+theorem xmlns_not_declared_without_table (c : XCfg) (hns : c.lang.ns = none) (p : Parent) (name : Name) (st : XSt) :
+    (xmlTag c p name st).out =
+      st.out ++ (if c.gen == 1 then spaces (st.indent.toNat * c.delta.toNat) else []) ++ [60] ++ name.xmlName := by
+  rw [xmlns_declared_bytes]
+  simp [declaredNs, hns, declBytes]
+
+/-- The start tag depends on the scope only through the page it stands for. -/
+theorem xmlns_depends_on_scope_page_only (c : XCfg) (p q : Parent) (hp : isScope p = true) (hq : isScope q = true)
+    (h : scopePage p = scopePage q) (name : Name) (st : XSt) :
+    (xmlTag c p name st).out = (xmlTag c q name st).out := by
+  rw [xmlns_declared_bytes, xmlns_declared_bytes, declaredNs_congr c p q name hp hq h]
+
+/-- **(c) The namespace in scope is the one of the element's code page.** `nsInScope c .none none names`
+    is the default namespace a namespace-aware reader has in scope after the start tags of the
+    elements `names` on the way down from the root: each start tag is printed under the scope
+    `xmlNode` hands down (`childScope`, theorem (a)), and whenever `xmlTag` declares a namespace there
+    (`declaredNs`, the bytes of theorem (b)) it replaces the current one.
+    For every tree `root` whose token elements all live on pages with a row in the namespace table
+    (`pagesHaveRows`, decidable) and every token element `r` in it (at any `path`, below the elements
+    `names`): the namespace in scope inside `r`'s start tag is the namespace of `r`'s page. -/
+theorem namespace_in_scope_matches_page (c : XCfg) (ns : List NsRow) (hns : c.lang.ns = some ns) (root : Node)
+    (hrows : pagesHaveRows ns root = true) (path : List Nat) (names : List Name) (r : TagRow)
+    (attrs : List Attr) (kids : List Node)
+    (hpath : pathTo root path = some (names, .elt (.token r) attrs kids)) :
+    nsInScope c .none none (names ++ [.token r]) = nsOfPageX ns r.page ∧
+    (nsOfPageX ns r.page).isSome = true := by
+  obtain ⟨h1, h2⟩ := pathTo_haveRows ns path root names _ hrows hpath
+  simp only [pagesHaveRows, Bool.and_eq_true] at h2
+  refine ⟨nsInScope_path c ns hns names r ?_, h2.1⟩
+  simp only [namesHaveRows, List.all_append, List.all_cons, List.all_nil, Bool.and_true, Bool.and_eq_true]
+  exact ⟨h1, h2.1⟩
+
+/-- (c) tied to the bytes: when `xmlNode` prints such a tree from the root (scope `.none`; any
+    configuration with that namespace table, any fuel, any state), the start tag of the token element
+    `r` at `path` is in the output as `xmlTag` writes it under the scope `q` handed down along the path,
+    and with what that tag declares, on top of what the tags above it declare, the namespace in scope
+    is the one of `r`'s page. -/
+theorem namespace_in_scope_matches_page_printed (c : XCfg) (ns : List NsRow) (hns : c.lang.ns = some ns)
+    (root : Node) (hrows : pagesHaveRows ns root = true) (f : Nat) (st st' : XSt)
+    (h : xmlNode c .none f root st = .ok st') (path : List Nat) (names : List Name) (r : TagRow)
+    (attrs : List Attr) (kids : List Node)
+    (hpath : pathTo root path = some (names, .elt (.token r) attrs kids)) :
+    ∃ q a post, q = names.foldl childScope .none ∧
+      st'.out = (xmlTag c q (.token r) a).out ++ post ∧
+      nsAfter c q (nsInScope c .none none names) (.token r) = nsOfPageX ns r.page := by
+  obtain ⟨g, a, b, post, hb, ho⟩ := xmlNode_sub c path .none f root st st' names _ h hpath
+  obtain ⟨x, hx⟩ := xmlNode_elt_tag c _ g (.token r) attrs kids a b hb
+  refine ⟨_, a, x ++ post, rfl, by rw [ho, hx, List.append_assoc], ?_⟩
+  rw [← nsInScope_append]
+  exact (namespace_in_scope_matches_page c ns hns root hrows path names r attrs kids hpath).1
+
+/-- Path form of (c), without a tree: any chain of ancestors ending in a token element. -/
+theorem namespace_in_scope_matches_page_path (c : XCfg) (ns : List NsRow) (hns : c.lang.ns = some ns)
+    (names : List Name) (r : TagRow) (hrows : namesHaveRows ns (names ++ [.token r]) = true) :
+    nsInScope c .none none (names ++ [.token r]) = nsOfPageX ns r.page :=
+  nsInScope_path c ns hns names r hrows
+
+/-- A small language with a namespace table (one page), and the former witness: the literal element
+    `X-Custom` with the token child `DSMem`. -/
+def nsLang : Lang :=
+  { id := 9999, pub := { wbxmlId := 1, xmlId := none, root := some b!"X-Custom", dtd := none },
+    tags := some [{ name := b!"DSMem", page := 0, token := 0x0c, opts := 0 }],
+    ns := some [{ ns := b!"syncml:devinf", page := 0 }], attrs := none, values := none, exts := none }
+
+def nsCfg : XCfg := { lang := nsLang, gen := 0, delta := 1, ignoreEmpty := true, removeBlanks := true }
+
+def nsWitness : Node :=
+  .elt (.literal b!"X-Custom") [] [.elt (.token { name := b!"DSMem", page := 0, token := 0x0c, opts := 0 }) [] [.text b!"text"]]
+
+/-- **Regression for the repaired defect.** `X-Custom[DSMem[text]]`: the token element below the
+    literal root now declares the namespace of its page (before fix 3c27455 the output was
+    `<X-Custom><DSMem>text</DSMem></X-Custom>`, `DSMem` in no namespace). -/
+theorem ns_former_witness_fixed :
+    (match xmlNode nsCfg .none 10 nsWitness {} with
+     | .ok st => some st.out
+     | .error _ => none) = some b!"<X-Custom><DSMem xmlns=\"syncml:devinf\">text</DSMem></X-Custom>" := by
+  decide
+
+/-- The former behaviour, for comparison: compared with its direct (literal) parent, the tag declares
+    nothing. `xmlNode` no longer produces such a scope value (`isScope`). -/
+example : (xmlTag nsCfg (.elt (.literal b!"X-Custom")) (.token { name := b!"DSMem", page := 0, token := 0x0c, opts := 0 }) {}).out
+    = b!"<DSMem" := by decide
+
+/-- Non-vacuity of (c): the hypotheses hold of the witness, and the namespace in scope at `DSMem` is
+    the declared one. -/
+example : pagesHaveRows [{ ns := b!"syncml:devinf", page := 0 }] nsWitness = true ∧
+    nsInScope nsCfg .none none [.literal b!"X-Custom", .token { name := b!"DSMem", page := 0, token := 0x0c, opts := 0 }]
+      = some b!"syncml:devinf" := by decide
+example : pathTo nsWitness [0] = some ([.literal b!"X-Custom"],
+      .elt (.token { name := b!"DSMem", page := 0, token := 0x0c, opts := 0 }) [] [.text b!"text"]) := rfl
+example : nsInScope nsCfg .none none ([.literal b!"X-Custom"] ++ [.token { name := b!"DSMem", page := 0, token := 0x0c, opts := 0 }])
+      = nsOfPageX [{ ns := b!"syncml:devinf", page := 0 }] 0 :=
+  (namespace_in_scope_matches_page nsCfg _ rfl nsWitness (by decide) [0] _ _ _ _ rfl).1
+
+/-- The hypothesis of (c) is needed: an element on a page without a row declares nothing and stays in
+    its ancestor's namespace. -/
+example : pagesHaveRows [{ ns := b!"syncml:devinf", page := 0 }]
+      (.elt (.token { name := b!"A", page := 0, token := 5, opts := 0 }) []
+        [.elt (.token { name := b!"B", page := 1, token := 5, opts := 0 }) [] []]) = false ∧
+    nsInScope nsCfg .none none [.token { name := b!"A", page := 0, token := 5, opts := 0 },
+      .token { name := b!"B", page := 1, token := 5, opts := 0 }] = some b!"syncml:devinf" ∧
+    nsOfPageX [{ ns := b!"syncml:devinf", page := 0 }] 1 = none := by decide
+
+/-- Two pages, a literal element in between: `B` (page of the nearest token ancestor `A`) declares
+    nothing, `C` (another page) declares its namespace, `D` (same page as `C`) nothing. -/
+example :
+    let t (n : Bytes) (pg : Nat) : Name := .token { name := n, page := pg, token := 5, opts := 0 }
+    let l : Lang := { nsLang with ns := some [{ ns := b!"p0", page := 0 }, { ns := b!"p1", page := 1 }] }
+    (match xmlNode { nsCfg with lang := l } .none 10
+        (.elt (t b!"A" 0) [] [.elt (.literal b!"x") [] [.elt (t b!"B" 0) [] [], .elt (t b!"C" 1) [] [.elt (t b!"D" 1) [] []]]]) {} with
+     | .ok st => some st.out
+     | .error _ => none) = some b!"<A xmlns=\"p0\"><x><B/><C xmlns=\"p1\"><D/></C></x></A>" := by
+  decide
 
 /-! ## DOCTYPE -/
 
